@@ -1082,6 +1082,38 @@ func init() {
 			w.setHeight(15)
 			w.opEpoch()
 		}
+		// D16: runs of store-adjacent providers inside the rewards lock period at an epoch (one pool: 5 providers,
+		// every pattern of who refreshed its record at block 30; two pools: the run crosses the pool boundary),
+		// lock period 10, wallet mode and pool mode — only the providers past the lock period may receive anything
+		for _, dist := range []bool{true, false} {
+			for pat := 1; pat < 32; pat += 2 + rng.Intn(3) {
+				w := newAmmWorld(rng, out, 6, -1)
+				w.fundAll()
+				w.setDistribute(dist)
+				w.setLock(10)
+				w.opCreate(w.users[0], "ceth", e18(500), e18(7))
+				w.opCreate(w.users[0], "cusdc", e18(300), e18(9))
+				for i := 1; i < 5; i++ {
+					w.opAdd(w.users[i], "ceth", e18(int64(100*i)), e18(1))
+					if i%2 == 1 {
+						w.opAdd(w.users[i], "cusdc", e18(int64(10*i)), e18(1))
+					}
+				}
+				w.setHeight(30)
+				for i := 0; i < 5; i++ {
+					if pat>>uint(i)&1 == 1 {
+						w.opAdd(w.users[i], "ceth", e18(1), big.NewInt(0))
+						if i%2 == 1 || i == 0 {
+							w.opAdd(w.users[i], "cusdc", big.NewInt(0), e18(1))
+						}
+					}
+				}
+				w.opBucket(w.users[5], "ceth", e18(3))
+				w.opBucket(w.users[5], "cusdc", big.NewInt(1000000))
+				w.setHeight(35)
+				w.opEpoch()
+			}
+		}
 		// D15: liquidity protection on, the threshold denominated in (a) a token without a pool (the default
 		// cusdc while only ceth has a pool), (b) the native token, (c) the pool's own token; swaps in both
 		// directions around the threshold, asymmetric adds on both sides, then the epoch hook in pool mode
